@@ -74,6 +74,7 @@ pub struct Judged {
 /// Execute `name` on `before` and compare with the reference.
 /// `force_compare`: compare even when the documented needs are not met.
 pub fn judge_instr(prop: &str, name: &str, before: &StateSpec, force_compare: bool) -> Result<Judged, Fail> {
+    crate::supervise::journal_instr(prop, name, before);
     let after = step_named_on(before, name).map_err(|(loc, msg)| {
         Fail::new(format!("{}/{}/panic@{}", prop, name, loc), format!("{} panicked at {}: {} | state before: {}", name, loc, msg, before.brief()))
     })?;
